@@ -1099,7 +1099,7 @@ package connect
 // wrong body; C11: every other key with all its values, in order).
 //@ macro framing(k seq) bool = k == "Content-Type" || k == "Content-Length" || k == "Content-Encoding" || k == "Transfer-Encoding" || k == "Trailer" || k == "Accept-Encoding" || k == "Connect-Content-Encoding" || k == "Connect-Accept-Encoding" || k == "Grpc-Encoding" || k == "Grpc-Accept-Encoding"
 //@ func isFramingHeader(key) res
-//@   tags C05, C11, C02
+//@   tags C05, C08, C11, C02
 //@   assigns nothing
 //@   ensures res == framing(key)
 //@ func mergeMetadataHeaders(into, from)
@@ -1192,7 +1192,7 @@ package connect
 //@ constfield duplexHTTPCall.requestBodyReader, duplexHTTPCall.requestBodyWriter, duplexHTTPCall.ctx, duplexHTTPCall.request, duplexHTTPCall.httpClient
 
 //@ func (*connectStreamingClientConn).Receive(cc, msg) err
-//@   tags C04, C06, C11, C02
+//@   tags C04, C05, C06, C11, C02
 //@   requires cc.responseTrailer != cc.responseHeader && cc.unmarshaler.trailer != cc.responseTrailer
 //@   requires cc != nil && cc.duplexCall != nil && cc.duplexCall.requestBodyReader != nil && cc.responseTrailer != nil && cc.responseHeader != nil
 //@   requires cc.unmarshaler.envelopeReader.reader != nil && !pooled(cc.unmarshaler.envelopeReader.reader) && termerr(cc.unmarshaler.envelopeReader.reader) != errSpecialEnvelope && cc.unmarshaler.envelopeReader.bufferPool != nil && cc.unmarshaler.envelopeReader.codec != nil
@@ -1202,8 +1202,8 @@ package connect
 //@   ensures old(cc.receiveErr) == nil && err != nil ==> coded(err)                                                                  // label: errors-are-coded
 //@   assert@call(mergeHeaders#1): arg0 == cc.responseTrailer && arg1 == callres("(*connectStreamingUnmarshaler).Trailer", 1)   // label: end-of-stream-metadata-joins-the-response-trailers   // tags: C11, C02
 //@   ensures called("(*connectStreamingUnmarshaler).EndStreamError", 1) && callres("(*connectStreamingUnmarshaler).EndStreamError", 1) != nil ==> err == callres("(*connectStreamingUnmarshaler).EndStreamError", 1) && (let e := callres("(*connectStreamingUnmarshaler).EndStreamError", 1) in e.meta != nil && (forall k seq :: {mapval(e.meta, k)} rawvals(e.meta, k) == rawvals(cc.responseHeader, k) ++ rawvals(cc.responseTrailer, k)))   // label: the-server's-error-carries-response-headers-then-trailers-as-metadata   // tags: C11, C02
-//@   ensures old(cc.receiveErr) != nil ==> err == old(cc.receiveErr) && cc.receiveErr == old(cc.receiveErr) && !called("(*connectStreamingUnmarshaler).Unmarshal", 1) && !called("mergeHeaders", 1)   // label: after-the-end-(or-a-failure)-the-same-error-is-returned-and-the-end-of-stream-metadata-is-not-merged-again   // tags: C11, C04
-//@   ensures err != nil ==> cc.receiveErr == err   // label: the-first-error-is-latched   // tags: C11, C04
+//@   ensures old(cc.receiveErr) != nil ==> err == old(cc.receiveErr) && cc.receiveErr == old(cc.receiveErr) && !called("(*connectStreamingUnmarshaler).Unmarshal", 1) && !called("mergeHeaders", 1)   // label: after-the-end-(or-a-failure)-the-same-error-is-returned-and-the-end-of-stream-metadata-is-not-merged-again   // tags: C11, C04, C05
+//@   ensures err != nil ==> cc.receiveErr == err   // label: the-first-error-is-latched   // tags: C11, C04, C05
 
 // ---------------------------------------------------------------------------
 // C06: every *Error built while decoding a response has a non-zero code
@@ -1383,6 +1383,8 @@ package connect
 //@   ensures isNum10(old(hget(trailer, "Grpc-Status"))) && val10(old(hget(trailer, "Grpc-Status"))) == 0 ==> res == nil   // label: every-numeric-zero-is-ok
 //@   ensures res == nil ==> old(hget(trailer, "Grpc-Status")) != "" && isNum10(old(hget(trailer, "Grpc-Status"))) && val10(old(hget(trailer, "Grpc-Status"))) == 0   // label: ok-only-with-a-zero-grpc-status   // tags: C04
 //@   ensures let st := old(hget(trailer, "Grpc-Status")) in old(hget(trailer, "Grpc-Status-Details-Bin")) == "" && isNum10(st) && 0 < val10(st) && val10(st) <= 4294967295 ==> res != nil && res.code == val10(st) && res.err != nil && errText(res.err) == pdec(old(hget(trailer, "Grpc-Message")), 0) && len(res.details) == 0   // label: without-binary-details-code-and-message-come-from-the-two-headers   // tags: C02
+//@   ensures called("Codec.Unmarshal", 1) && callres("Codec.Unmarshal", 1) == nil ==> res != nil && called("errors.New", 2) && res.err == callres("errors.New", 2)   // label: with-a-binary-status-the-message-is-the-status's-byte-for-byte-not-the-percent-decoded-header's   // tags: C02
+//@   assert@call(errors.New#2): arg0 == status.Message   // label: the-status's-own-message   // tags: C02
 //@   loop rangeindex:
 //@     invariant 0 - 1 <= rangeindex && rangeindex < |status.Details|
 
